@@ -34,9 +34,9 @@ theorem C04_empty_config (w : Bytes) : interleave [] w = (w.map regexpChar).flat
     | nil => simp [interleave]
     | cons d rest => rw [interleave, ih]; simp
 
-theorem C04_regexpChar (c : Char) :
+theorem C04_regexpChar (c : Char) (hc : c.toNat < 0x80) :
     regexpChar c = if c = '.' then b!"\\." else if c = '-' then b!"\\-" else if c = ' ' then b!"\\s+" else [c] := by
-  unfold regexpChar; simp
+  unfold regexpChar; simp [hc]
 
 /-- a leading `'` passes the rest of the line through untouched -/
 theorem C04_verbatim (p : Patterns) (rest : Bytes) : regexpStr p ('\'' :: rest) = rest := rfl
